@@ -2,7 +2,7 @@
 # usage: confirm_seed.sh <seed dir with patch.diff + demo.*> <base commit> -> prints a one-line JSON result
 # Confirms in a scratch worktree (outside /repo and /verif): the suite passes with the change, the demo
 # fails with it and passes without it.  The worktree is removed afterwards.
-sd=$1; base=$2; name=$(echo $sd | sed "s#.*/seedout[234]\?/##; s#/#_#g")
+sd=$1; base=$2; name=$(echo $sd | sed "s#.*/seedout[2345]\?/##; s#/#_#g")
 wt=/tmp/confirm/$name
 rm -rf $wt; mkdir -p /tmp/confirm
 git -C /repo worktree add -f $wt $base >/dev/null 2>&1 || { echo "{\"seed\":\"$name\",\"error\":\"worktree\"}"; exit 1; }
